@@ -121,6 +121,8 @@ func (g *gen) loadAt(st *State, ref string, t types.Type) Val {
 				sv.F = append(sv.F, g.loadAt(st, app("fld", ref, fmt.Sprint(i)), f.Type()))
 			} else if _, ok := f.Type().Underlying().(*types.Array); ok {
 				sv.F = append(sv.F, "0")
+			} else if lv, ok := g.localCell[ref+"#"+f.Name()]; ok {
+				sv.F = append(sv.F, g.svGet(st, lv, sortOf(f.Type())))
 			} else {
 				m := g.svGet(st, fieldMapName(t, f.Name()), "(Array Ref "+sortOf(f.Type())+")")
 				sv.F = append(sv.F, app("select", m, ref))
@@ -131,8 +133,29 @@ func (g *gen) loadAt(st *State, ref string, t types.Type) Val {
 	if _, ok := t.Underlying().(*types.Array); ok {
 		return "0"
 	}
+	if lv, ok := g.localCell[ref+"#"]; ok {
+		return g.svGet(st, lv, sortOf(t))
+	}
 	m := g.svGet(st, cellMapName(t), "(Array Ref "+sortOf(t)+")")
 	return app("select", m, ref)
+}
+
+// registerLocal makes a non-escaping allocation a set of scalar state variables.
+func (g *gen) registerLocal(ref string, t types.Type, name string) {
+	if s, ok := isStruct(t); ok {
+		for i := 0; i < s.NumFields(); i++ {
+			f := s.Field(i)
+			if _, ok := isStruct(f.Type()); ok {
+				g.registerLocal(app("fld", ref, fmt.Sprint(i)), f.Type(), name+"."+f.Name())
+			} else if _, ok := f.Type().Underlying().(*types.Array); ok {
+				continue
+			} else {
+				g.localCell[ref+"#"+f.Name()] = name + "." + f.Name()
+			}
+		}
+		return
+	}
+	g.localCell[ref+"#"] = name
 }
 
 // storeAt stores v (of Go type t) at ref.
@@ -148,6 +171,8 @@ func (g *gen) storeAt(n *node, st *State, ref string, t types.Type, v Val) {
 				g.storeAt(n, st, app("fld", ref, fmt.Sprint(i)), f.Type(), sv.F[i])
 			} else if _, ok := f.Type().Underlying().(*types.Array); ok {
 				continue
+			} else if lv, ok := g.localCell[ref+"#"+f.Name()]; ok {
+				g.svSet(st, lv, sortOf(f.Type()), sv.F[i].(string))
 			} else {
 				name := fieldMapName(t, f.Name())
 				sort := "(Array Ref " + sortOf(f.Type()) + ")"
@@ -158,6 +183,10 @@ func (g *gen) storeAt(n *node, st *State, ref string, t types.Type, v Val) {
 		return
 	}
 	if _, ok := t.Underlying().(*types.Array); ok {
+		return
+	}
+	if lv, ok := g.localCell[ref+"#"]; ok {
+		g.svSet(st, lv, sortOf(t), v.(string))
 		return
 	}
 	name := cellMapName(t)
@@ -229,6 +258,17 @@ func (g *gen) typeInv(term string, t types.Type, st *State) []string {
 	case "Ref":
 		if st != nil {
 			out = append(out, app("<", app("rootid", term), g.svGet(st, "$nxt", "Int")))
+			if ti := g.typeInvFor(t); ti != nil && !g.inTypeInv {
+				g.inTypeInv = true
+				e := &env{g: g, vars: map[string]binding{ti.Var: {term, xtOf(t)}}, st: st, old: st, pkgPath: ti.PkgPath, imports: ti.Imports}
+				if tt, err := e.trBool(ti.E); err == nil {
+					out = append(out, implies(not(app("=", term, "null")), tt))
+					g.used["typeinv:"+ti.PkgPath+"."+ti.Type] = true
+				} else {
+					g.errorf("typeinv %s: %v", ti.Type, err)
+				}
+				g.inTypeInv = false
+			}
 		}
 	case "Slice":
 		out = append(out, app("validslice", term))
@@ -237,6 +277,18 @@ func (g *gen) typeInv(term string, t types.Type, st *State) []string {
 		}
 	}
 	return out
+}
+
+func (g *gen) typeInvFor(t types.Type) *TypeInv {
+	p, ok := t.Underlying().(*types.Pointer)
+	if !ok {
+		return nil
+	}
+	k, ok := namedStructKey(p.Elem())
+	if !ok {
+		return nil
+	}
+	return g.P.spec.TypeInvs[k]
 }
 
 func valTypeInv(g *gen, v Val, t types.Type, st *State) []string {
@@ -471,7 +523,7 @@ func (e *env) tr(x Expr) (Val, XT, error) {
 		if xt.T != nil {
 			if sl, ok := xt.T.Underlying().(*types.Slice); ok {
 				s := v.(string)
-				ref := app("elem", app("sbase", s), app("+", app("soff", s), iv.(string)))
+				ref := app("eref", s, iv.(string))
 				return g.loadAt(e.st, ref, sl.Elem()), xtOf(sl.Elem()), nil
 			}
 		}
@@ -802,6 +854,19 @@ func (e *env) trCall(x *ECall) (Val, XT, error) {
 	case "emptyset", "emptymap":
 		// emptyset(K) / emptymap(K,V) are typed by context: need explicit sorts as string args
 		return nil, XT{}, e.errf("%s not supported; compare via forall", x.Fn)
+	case "deref":
+		v, xt, err := argv(0)
+		if err != nil {
+			return nil, XT{}, err
+		}
+		if xt.T == nil {
+			return nil, XT{}, e.errf("deref of ghost value")
+		}
+		p, ok := xt.T.Underlying().(*types.Pointer)
+		if !ok {
+			return nil, XT{}, e.errf("deref of non-pointer %s", x.Args[0])
+		}
+		return g.loadAt(e.st, v, p.Elem()), xtOf(p.Elem()), nil
 	case "isnil":
 		v, xt, err := argv(0)
 		if err != nil {
